@@ -227,20 +227,33 @@ pub fn check(c: &Case) -> Verdict {
     let mut open_blk: HashMap<String, String> = HashMap::new(); // fd -> path
     let mut max_open = 0;
     let mut opens = 0;
+    // strace -f splits a call that is overtaken by another thread's into "... <unfinished ...>" and
+    // "<... openat resumed>) = 7" lines: both halves are honoured (an unfinished close still releases its descriptor)
+    let mut pending: HashMap<String, String> = HashMap::new(); // pid -> path of an unfinished openat
     for line in text.lines() {
-        // "pid openat(AT_FDCWD, "/path/blk00001.dat", O_RDONLY|O_CLOEXEC) = 7" / "pid close(7) = 0"
-        let l = line.splitn(2, ' ').nth(1).unwrap_or(line).trim_start();
+        let mut it = line.splitn(2, ' ');
+        let pid = it.next().unwrap_or("").to_string();
+        let l = it.next().unwrap_or("").trim_start();
+        let fd_of = |l: &str| -> Option<String> { l.rsplit("= ").next().map(|x| x.trim().split(' ').next().unwrap_or("").to_string()).filter(|x| x.parse::<i64>().map(|v| v >= 0).unwrap_or(false)) };
         if l.starts_with("openat(") && l.contains("/blk") && l.contains(".dat\"") {
-            if let Some(fd) = l.rsplit("= ").next() {
-                if fd.trim().parse::<i64>().map(|x| x >= 0).unwrap_or(false) {
-                    let path = l.split('"').nth(1).unwrap_or("").to_string();
-                    open_blk.insert(fd.trim().to_string(), path);
+            let path = l.split('"').nth(1).unwrap_or("").to_string();
+            if l.contains("<unfinished") {
+                pending.insert(pid, path);
+            } else if let Some(fd) = fd_of(l) {
+                open_blk.insert(fd, path);
+                opens += 1;
+                max_open = max_open.max(open_blk.len());
+            }
+        } else if l.starts_with("<... openat resumed>") {
+            if let Some(path) = pending.remove(&pid) {
+                if let Some(fd) = fd_of(l) {
+                    open_blk.insert(fd, path);
                     opens += 1;
                     max_open = max_open.max(open_blk.len());
                 }
             }
         } else if l.starts_with("close(") {
-            let fd = l[6..].split(')').next().unwrap_or("").to_string();
+            let fd: String = l[6..].chars().take_while(|c| c.is_ascii_digit()).collect();
             open_blk.remove(&fd);
         }
     }
